@@ -4,7 +4,11 @@ spec = {
   "tasks": [ {"id": int, "module": int, "deps": [node…], "prods": [node…], "after": [task id…],
               "after_style": "func"|"list"|"expr", "marks": ["skip","skipif_true","skipif_false","persist",
               "try_first","try_last","markone","marktwo"], "beh": "ok"|"early"|"late"|"omit:k", "style": "default"|"annotated"|
-              "kwargs"|"return", "gen": bool } ],
+              "kwargs"|"return", "gen": bool,
+              # optional (C06/C17 streams): "mem_out": bool — an in-memory PythonNode product `mem<id>`; "mem_in": [producer id…] —
+              # in-memory dependencies on those products; "pyhash_deps": [node…] ⊆ deps — declared as PythonNode(value=<content of
+              # data/n<node>.txt at import>, hash=True) instead of a path node; "gen_marks": [marker…] on the child of a generator
+              } ],
   "versions": {module: int},
   "inputs": {node: int}          # initial contents of non-product files
 }
@@ -37,6 +41,10 @@ def F(t, i, src, ds):
     for d in ds:
         h = (h * 31 + ((d + 7) if d is not None else 3)) % M61
     return (((t * 1000003 + i) * 1000003 + (src or 0)) * 1000003 + h) % M61
+
+def hv(n):
+    """value of a hashed Python dependency = the integer held by data/n<n>.txt when the module is imported"""
+    return int((ROOT / "data" / f"n{n}.txt").read_text())
 
 # --- fault-injection nodes (C08 campaign); each logs when its fault fires ------------------------------
 from typing import Any as _Any
@@ -197,6 +205,7 @@ def render_module(spec, m: int, src_value=None) -> str:
         "import pytask",
         "from pytask import Product, task, PathNode, PythonNode, DirectoryNode",
         "import _verif_rt as rt",
+        *(["import _verif_mem"] if any(t.get("mem_out") or t.get("mem_in") for t in tasks) else []),
         ("DATA = Path(__file__).resolve().parent.parent / 'data'" if module_subdir(spec, m) else
          "DATA = Path(__file__).resolve().parent / 'data'"),
         f"SRC = {module_content(spec, m) if src_value is None else src_value}",
@@ -264,6 +273,8 @@ def render_module(spec, m: int, src_value=None) -> str:
                 lit = ("[" + ", ".join(items) + "]") if bag["kind"] == "list" else ("(" + ", ".join(items) + ",)")
                 bag_expr = {n: f"{bn}[{i + 1}]" for i, n in enumerate(bag_deps)}
                 ann = "list" if bag["kind"] == "list" else "tuple"
+        pyhash = [n for n in t.get("pyhash_deps", []) if n in deps]     # optional: hashed Python values instead of path nodes
+        deps = [n for n in deps if n not in pyhash]
         dep_names = [f"d{n}" for n in deps]
         prod_names = [f"p{i}" for i in range(len(prods))]
         if style == "kwargs" and deps:
@@ -283,6 +294,13 @@ def render_module(spec, m: int, src_value=None) -> str:
             params += [f"{nm}: Path = DATA / 'n{n}.txt'" for nm, n in zip(dep_names, deps)]
         if bag_deps:
             params.append(f"{bn}: {ann} = {lit}")
+        late_params = []        # optional extras: parameters without defaults (keyword-only)
+        for n in pyhash:
+            late_params.append(f"h{n}: Annotated[int, PythonNode(value=rt.hv({n}), hash=True)]")
+        for pidx in t.get("mem_in", []):
+            late_params.append(f"mi{pidx}: Annotated[object, _verif_mem.node({pidx})]")
+        if t.get("mem_out"):
+            late_params.append(f"mo{tid}: Annotated[object, _verif_mem.node({tid}), Product]")
         if t.get("hashed"):
             # optional: a constant hashed Python value (tuple holding a str and a Path) as an additional tracked dependency
             params.append(f"hv{tid}: Annotated[tuple, PythonNode(value=('k{tid}', {tid}, Path('v{tid}')), hash=True)]")
@@ -335,16 +353,21 @@ def render_module(spec, m: int, src_value=None) -> str:
                 L.append(f"@pytask.mark.{mk}")
         if deco_kwargs or style in ("kwargs", "return") or t.get("force_decorator"):
             L.append("@task(" + ", ".join(deco_kwargs) + ")")
-        if t.get("hashed") or dir_names:
+        params += late_params
+        if t.get("hashed") or dir_names or late_params:
             params.insert(0, "*")                    # keyword-only: parameters without defaults may follow ones with defaults
         L.append(f"def {tname(tid)}({', '.join(params)}):")
         # the body of a load-fault task does not read the faulty dependency: were the function invoked in spite of the
         # failing load, it would run to completion (and the oracle would see a fired fault without a FAIL report)
-        body_deps = [bag_expr.get(n, f"d{n}") for n in all_deps if not (beh == "loadfail" and n == faulty_dep)]
+        body_deps = [bag_expr.get(n, (f"DATA / 'n{n}.txt'" if n in pyhash else f"d{n}")) for n in all_deps if not (beh == "loadfail" and n == faulty_dep)]
+        if t.get("mem_out"):
+            L.append(f"    mo{tid}.save({tid})")
         dirs_arg = f", dirs=[{', '.join(dir_names)}]" if dir_names else ""
         if is_gen:
             kid = 50 + tid
             L.append(f"    rt.body({tid}, SRC, [{', '.join(body_deps)}], {body_prods}, {body_beh!r}, ret=None{dirs_arg})")
+            for mk in t.get("gen_marks", []):            # optional: markers on the generated task
+                L.append(f"    @pytask.mark.{mk}")
             L.append(f"    @task(name={tname(kid)!r})")
             L.append(f"    def _kid(produces: Path = DATA / 'n{7000 + tid}.txt'):")
             L.append(f"        return rt.body({kid}, SRC, [], [produces], 'ok', ret=None)")
@@ -377,6 +400,10 @@ def materialise(root: Path, spec, clock: Clock | None = None):
     root.mkdir(parents=True, exist_ok=True)
     (root / "pyproject.toml").write_text('[tool.pytask.ini_options]\nmarkers = {markone = "marker one", marktwo = "marker two"}\n')
     (root / "_verif_rt.py").write_text(RT)
+    if any(t.get("mem_out") or t.get("mem_in") for t in spec["tasks"]):
+        # in-memory nodes shared between task modules: one PythonNode object per producer id
+        (root / "_verif_mem.py").write_text(
+            "from pytask import PythonNode\n_N = {}\n\ndef node(k):\n    if k not in _N:\n        _N[k] = PythonNode(name=f'mem{k}')\n    return _N[k]\n")
     (root / "data").mkdir(exist_ok=True)
     for m in sorted({t["module"] for t in spec["tasks"]}):
         _ensure_subdir(root, spec, m)
